@@ -23,6 +23,7 @@ const modPath = "github.com/resgateio/resgate"
 // rules work on. Everything is rebuilt from the working tree on every run.
 type Prog struct {
 	roleMemo       map[string]*ssa.Function
+	fvUsers        map[*ssa.Function][]*ssa.Function
 	hbDone         bool
 	hbField        *types.Var
 	hbSet, hbClear *ssa.Function
